@@ -480,6 +480,14 @@ def rule_PC6(ctx, rep):
                                     any(isinstance(x, ast.Attribute) and x.attr == 'pid' for x in sides):
                                 guarded = True
                     if not guarded:
+                        # the same through path conditions: early `continue`, negated tests, nesting (cond.py)
+                        from . import cond
+                        cx = cond.context(fn, call, pm, stop=lp)
+                        for a in cond.atoms_of(cx):
+                            if '==' in a and ('.pid' in a or __import__('re').search(r'(?<![\w.])P(?![\w])', a)) and any(__import__('re').search(r'(?<![\w.])' + t_ + r'(?![\w])', a) for t_ in tnames):
+                                if not cond.satisfiable(cond.conj([cx, cond.neg(cond.atom(a))])):
+                                    guarded = True
+                    if not guarded:
                         problems.append(f'peer {norm(peer)} does not vary with the enclosing loop over {norm(lp.target) if hasattr(lp, "target") else "comprehension"}: '
                                         'several messages with one label to the same peer')
                 if problems:
